@@ -11,12 +11,11 @@ CONFIGS = ["full", "book", "default"]
 NOT_DECIDED = [
     "that callbacks are never invoked again over all histories (follows from clauses 1-2 plus C01 only under the kernel assumptions)",
     "the documented Rc reference cycle; user code holding Dispatcher::as_source_mut() across LoopHandle::remove",
-    "a source that removes itself in its callback and whose process_events then fails (error exit of the batch loop: known finding F-C15-2)",
 ]
 EXPLANATION = (
     "Decides on the MIR: (1) enable/update/disable/remove reach the dispatcher only through a generation-checked lookup of the "
     "caller's token; (2) every removal path empties the slot and unregisters: remove() takes the dispatcher and unregisters it on "
-    "every path, the batch loop re-checks the slot after every successful process_events and unregisters when the slot is empty "
+    "every path, the batch loop re-checks the slot after every process_events, successful or failed (F-C06-2), and unregisters when the slot is empty "
     "or the lookup misses; (3) no forget/leak/into_raw/transmute of loop-owned values outside a frozen table; (4) T1 class DROP: a "
     "dispatcher (Rc<dyn EventDispatcher>) is never dropped or overwritten while a loop-state guard is live, unless a keep-alive "
     "witness is provably live or the overwritten slot is provably empty."
@@ -148,8 +147,10 @@ def run(ck):
     # ---- clause 2b: post-dispatch check in the batch loop ---------------------------------------------
     dl = DispatchLoop(ck, "2")
     lb = dl.body
-    unregs = [cs for cs in T.calls(lb, name="unregister", trait="EventDispatcher", self_kind=("dyn",)) if cs.bb in dl.blocks]
-    gets = [cs for cs in T.calls(lb, name=("get", "get_mut"), path="SourceList") if cs.bb in dl.blocks]
+    # (blocks that only lead to an error return are not part of the natural loop: what follows process_events counts too)
+    after_pe0 = lb.reachable([dl.pe.to], removed_blocks=[dl.header]) if dl.pe.to is not None else set()
+    unregs = [cs for cs in T.calls(lb, name="unregister", trait="EventDispatcher", self_kind=("dyn",)) if cs.bb in dl.blocks or cs.bb in after_pe0]
+    gets = [cs for cs in T.calls(lb, name=("get", "get_mut"), path="SourceList") if cs.bb in dl.blocks or cs.bb in after_pe0]
     pe_ok, pe_err, _ = T.result_split(lb, dl.pe.bb)
     # The check is read off the CFG (Option / Result combinators are expanded by the loader, so `.ok().map(..)
     # .unwrap_or(true)` and a hand-written match look the same): after process_events the slot is looked up again;
@@ -157,6 +158,7 @@ def run(ck):
     # on which the slot's `source` was found empty; the unregister is reachable through those edges only.
     after_pe = lb.reachable([dl.pe.to], removed_blocks=[dl.header]) if dl.pe.to is not None else set()
     final = None
+    finals = []
     for g in gets:
         if g.bb not in after_pe:
             continue
@@ -164,11 +166,11 @@ def run(ck):
         e_miss = list(g_err)
         e_empty = []
         for c2 in T.calls(lb, name=("is_none", "is_some")):
-            if c2.bb in dl.blocks and not lb.is_cleanup(c2.bb) and T.path_has(lb, c2.args[0], ".source") and T.tainted_by_call(lb, c2.args[0], [g.bb]):
+            if (c2.bb in dl.blocks or c2.bb in after_pe0) and not lb.is_cleanup(c2.bb) and T.path_has(lb, c2.args[0], ".source") and T.tainted_by_call(lb, c2.args[0], [g.bb]):
                 tr, fa = T.bool_split(lb, c2.bb)
                 e_empty += tr if c2.name == "is_none" else fa
         for sw in T.switches_on_expr(lb, lambda e: e[0] == "discr"):
-            if sw not in dl.blocks:
+            if sw not in dl.blocks and sw not in after_pe0:
                 continue
             e = lb.expr(lb.blocks[sw]["term"]["on"])
             if any(r == ("call", g.bb) and ".source" in p and p[-1] in (".source", "*") for r, p in lb.resolve(e[2])):
@@ -176,11 +178,12 @@ def run(ck):
         for u in unregs:
             if u.bb not in lb.reachable([g.to], removed_blocks=[dl.header]):
                 continue
-            if (e_miss or e_empty) and T.reachable_only_via(lb, u.bb, e_miss + e_empty, frm=[g.to], barrier=[dl.header]):
-                final = (u, g, e_miss, e_empty)
+            if (e_miss or e_empty) and T.reachable_only_via(lb, u.bb, e_miss + e_empty, frm=[g.to], barrier=[dl.header] + list(lb.return_blocks())):
+                finals.append((u, g, e_miss, e_empty))
                 break
-        if final:
-            break
+    # the check of the normal path is the one inside the loop (a copy on the error path lies outside the natural loop)
+    inloop = [x for x in finals if x[1].bb in dl.blocks]
+    final = (inloop or finals or [None])[0]
     if final is None:
         ck.violation("2", "T2-all-exits", lb, "post-dispatch-removed-check", "the batch loop has no 'slot empty => unregister' check after process_events: a source removed from inside its own callback (where unregister is deferred) would stay registered", site=lb.where(dl.pe.bb))
     else:
@@ -197,6 +200,15 @@ def run(ck):
                 if rem and T.reachable_only_via(lb, u.bb, e_miss + e_empty + rem, frm=[dl.pe.to], barrier=[dl.header]) and T.t2_all_exits(lb, starts, [g.bb, u.bb], exits={dl.header}) is None:
                     bad = None
         ck.verdict(bad is None, "2", "T2-all-exits", lb, "processed=>removed-check", "every path from a successful process_events to the next iteration passes the 'was it removed?' check", "an iteration can finish after a successful process_events without checking whether the source was removed from inside its callback", site=lb.where(g.bb), path=path_descr(lb, bad) if bad else None)
+        # .. and so does the failing one: a source that removed itself from its callback and whose event processing then
+        # returns an error must still be taken out of the poller and of the lifecycle set, or the fd stays registered
+        # for good and the next dispatch finds a lifecycle entry whose slot is empty (unreachable!())
+        if pe_err:
+            # (the check made on the error path may be a copy of its own: any lookup of this iteration's token whose
+            # miss / empty edges lead to the unregister of the processed dispatcher counts)
+            chk = [x.bb for fu, fg, _, _ in finals for x in (fu, fg) if lb.resolve(fu.args[0]) == lb.resolve(dl.pe.args[0])]
+            bad_e = T.t2_all_exits(lb, [x for _, x in pe_err], chk or [g.bb, u.bb], exits=set(lb.return_blocks()) | {dl.header})
+            ck.verdict(bad_e is None, "2", "T2-all-exits", lb, "failed=>removed-check", "the error exit of process_events passes the 'was it removed?' check as well", "when process_events returns an error the iteration is left without checking whether the source removed itself from inside its callback: it is never unregistered (its fd stays in the poller, its lifecycle entry survives with an empty slot and the next dispatch panics at unreachable!())", site=lb.where(dl.pe.bb), path=path_descr(lb, bad_e) if bad_e else None)
         ck.verdict(T.resolves_to_call(lb, g.args[1], [cs.bb for cs in T.calls(lb, name="forget_sub_id")]) or T.path_has(lb, g.args[1], ".token"), "2", "T6-provenance", lb, "removed-check/this-token", "the check looks up this iteration's token", "the removed-check does not look up this iteration's token", site=lb.where(g.bb))
         # lookup miss (slot reused) => unregister
         miss_ok = bool(e_miss) and T.t2_all_exits(lb, [x for _, x in e_miss], [u.bb], exits={dl.header}) is None
